@@ -19,7 +19,7 @@ CONSTANTS
   MAXH = 4
   MAXOPS = 5
   FACTORS = {50,100}
-  POWERS = {1,100}
+  POWERS = {1,2,100}
   SLASHIDS = {"i1"}
   GENBAL = 3
   FRESH = TRUE
